@@ -499,6 +499,57 @@ pub fn check_file_clause(name: &str, dir: &Path, unfiltered: &BinRun, case: &Val
     out
 }
 
+/// (d): files related by includes (chain, diamond), named in every sequence of length <= 3 with
+/// repetition: what is displayed is the disjoint union, over the *distinct* named files, of what
+/// is displayed when that file is named alone (a file named twice, or named and also included by
+/// another named file, contributes once).
+pub fn check_named_sequences(dir: &Path, max_len: usize, case: &Value) -> (Vec<Violation>, u64) {
+    let lib = "pragma circom 2.0.0;\n\nfunction dbl(a) {\n    var unused = 3;\n    return a * 2;\n}\n\ntemplate Lib() {\n    signal input in;\n    signal output out;\n    signal output aux;\n    out <-- in;\n    aux <== in;\n}\n";
+    let a = "pragma circom 2.0.0;\ninclude \"lib.circom\";\n\ntemplate A(n) {\n    signal input in;\n    signal output out;\n    var x = dbl(n);\n    if (n > 1) {\n        var x = 2;\n    }\n    component l = Lib();\n    l.in <== in;\n    out <-- l.out * x;\n}\n";
+    let c = "pragma circom 2.0.0;\ninclude \"lib.circom\";\n\ntemplate C() {\n    signal input in;\n    signal output out;\n    component l = Lib();\n    l.in <== in;\n    out <== l.aux;\n}\n";
+    let top = "pragma circom 2.0.0;\ninclude \"a.circom\";\ninclude \"c.circom\";\n\ntemplate Top() {\n    signal input in;\n    signal output out;\n    component a = A(2);\n    component c = C();\n    a.in <== in;\n    c.in <== in;\n    out <-- a.out + c.out;\n}\n\ncomponent main = Top();\n";
+    let names = ["lib.circom", "a.circom", "c.circom", "top.circom"];
+    runner::write_project(dir, &[(names[0], lib), (names[1], a), (names[2], c), (names[3], top)]);
+    let keys = |r: &BinRun| -> Vec<String> { sorted(r.diagnostics.iter().map(diag_key).map(|k| k.replace("../", "")).collect()) };
+    let alone: Vec<Vec<String>> = names.iter().map(|n| keys(&run_config(dir, n, "info", &[], true, false))).collect();
+    let mut out = Vec::new();
+    let mut evals = 0u64;
+    for len in 1..=max_len {
+        for code in 0..names.len().pow(len as u32) {
+            let seq: Vec<usize> = (0..len).map(|i| code / names.len().pow(i as u32) % names.len()).collect();
+            let mut distinct = seq.clone();
+            distinct.sort();
+            distinct.dedup();
+            let expected = sorted(distinct.iter().flat_map(|i| alone[*i].clone()).collect());
+            let args: Vec<&str> = seq.iter().map(|i| names[*i]).collect();
+            evals += 1;
+            let run = run_config(dir, &args.join(" "), "info", &[], true, false);
+            let got = keys(&run);
+            let count_ok = run.summary_count() == Some(got.len());
+            if got != expected || !count_ok {
+                let missing: Vec<&String> = expected.iter().filter(|k| !got.contains(k)).collect();
+                let extra: Vec<String> = {
+                    let mut pool = expected.clone();
+                    got.iter().filter(|k| match pool.iter().position(|p| p == *k) { Some(i) => { pool.remove(i); false } None => true }).cloned().collect()
+                };
+                let id = |k: &String| k.split('|').next().unwrap_or("").to_string();
+                let sig = if let Some(k) = extra.first() { format!("named-sequence/extra/{}", id(k)) } else if let Some(k) = missing.first() { format!("named-sequence/missing/{}", id(k)) } else { "named-sequence/summary-count".to_string() };
+                let mut c = case.clone();
+                c["sequence"] = json!(args);
+                out.push(Violation {
+                    signature: sig,
+                    what: format!("naming {args:?} does not display each finding of the distinct named files exactly once"),
+                    case: c,
+                    expected: format!("{expected:?}"),
+                    observed: format!("missing {missing:?} extra {extra:?} summary {:?}", run.summary),
+                });
+                return (out, evals);
+            }
+        }
+    }
+    (out, evals)
+}
+
 pub fn run(run: &Run) {
     run.set_rule(
         "(a) projects of n templates + 1 function, the instantiation relation ranging over every \
@@ -506,7 +557,9 @@ pub fn run(run: &Run) {
          finding (shadowing) and pass-stage findings; for each shape every permutation of \
          analyze(d) events on the real AnalysisRunner; (b,c) corpus projects x full lattice \
          level{info,warning,error} x every subset of the ids occurring in the unfiltered run x \
-         verbose x sarif through the binary; non-trivial = shape with at least one instantiation \
+         verbose x sarif through the binary; (d) four files related by includes (chain, diamond, main on top) named in every \
+         sequence of length <= 3 with repetition: displayed = disjoint union over the distinct named files of \
+         what each displays alone; non-trivial = shape with at least one instantiation \
          edge / configuration that filters at least one finding",
     );
     let base = work_dir("c03");
@@ -615,6 +668,17 @@ pub fn run(run: &Run) {
         });
         let _ = std::fs::remove_dir_all(&dir);
     }
+    // (d)
+    {
+        let case = json!({"kind": "named-sequences", "max_len": 3});
+        run.watch(&case);
+        let (vs, k) = check_named_sequences(&base.join("named"), 3, &case);
+        run.idle();
+        run.eval(k);
+        run.nontrivial(k);
+        run.set_extra("named_file_sequences", json!(k));
+        run.violations(vs);
+    }
     let _ = std::fs::remove_dir_all(&base);
     run.assume("findings are compared as (id, level, message) multisets in (a) and as (id, level, message, file:line:col) in (b,c)");
 }
@@ -627,6 +691,7 @@ pub fn replay(case: &Value) -> Vec<Violation> {
             let edges = case["edges"].as_u64().unwrap_or(0) as u32;
             check_shape(n, edges, &base, case).0
         }
+        Some("named-sequences") => check_named_sequences(&base, case["max_len"].as_u64().unwrap_or(3) as usize, case).0,
         Some("contract") => {
             let name = case["corpus"].as_str().unwrap_or("mixed");
             let Some((_, text)) = CORPUS.iter().find(|(n, _)| *n == name) else { return Vec::new() };
